@@ -22,6 +22,12 @@ def step (st : St) (cmd : String) (m : KV) : Option (St × String) :=
     else
       let p : TB.P := ⟨cap, q, fi⟩
       pure (⟨p, TB.init p⟩, s!"ok rateOK={if TB.rateOK q fi rate then 1 else 0}")
+  | "tb.search" => do
+    let rate ← getInt m "rate"
+    if rate ≤ 0 then none
+    else match TB.search rate with
+      | some (q, fi) => pure (st, s!"q={q} fi={fi}")
+      | none => pure (st, "none")
   | "tb.take" => do
     let now ← getInt m "now"
     let c ← getInt m "count"
